@@ -15,11 +15,16 @@ pub struct Grp {
     pub st: bool,
     pub ord: bool,
     pub model: bool,
+    /// also compare the stored item value of the element an update targets (C12)
+    pub pay: bool,
 }
-pub const ALL: Grp = Grp { st: true, ord: true, model: true };
-pub const STRUCT: Grp = Grp { st: true, ord: false, model: false };
-pub const ORDER: Grp = Grp { st: false, ord: true, model: false };
-pub const MODEL: Grp = Grp { st: false, ord: false, model: true };
+pub const ALL: Grp = Grp { st: true, ord: true, model: true, pay: false };
+pub const STRUCT: Grp = Grp { st: true, ord: false, model: false, pay: false };
+pub const ORDER: Grp = Grp { st: false, ord: true, model: false, pay: false };
+pub const MODEL: Grp = Grp { st: false, ord: false, model: true, pay: false };
+/// the C12 variants
+pub const ALLP: Grp = Grp { st: true, ord: true, model: true, pay: true };
+pub const MODELP: Grp = Grp { st: false, ord: false, model: true, pay: true };
 
 /// `peek*` report stored elements that are extremes of *all* stored priorities
 /// (the quantified statement itself, not a consequence drawn from the tree shape).
@@ -103,6 +108,9 @@ pub fn push<T: Q, const N: usize>(pre: Pre, tables: Tables, g: Grp) {
         Some((opay, _)) => want.set(k, opay, p),
         None => want.set(k, pay, p),
     }
+    if !g.pay && old.is_some() {
+        want.any_payload(k);
+    }
     post(&mut q, &want, g);
     cover!(old.is_some(), "push of a present item");
     cover!(old.is_none(), "push of a new item");
@@ -125,6 +133,9 @@ pub fn change_priority<T: Q, const N: usize>(pre: Pre, tables: Tables, g: Grp) {
     }
     if let Some((opay, _)) = old {
         want.set(k, opay, p);
+        if !g.pay {
+            want.any_payload(k);
+        }
     }
     post(&mut q, &want, g);
     cover!(old.map_or(false, |o| o.1 < p), "priority raised");
@@ -153,6 +164,9 @@ pub fn change_priority_by<T: Q, const N: usize>(pre: Pre, tables: Tables, g: Grp
     }
     if let Some((opay, _)) = old {
         want.set(k, opay, p);
+        if !g.pay {
+            want.any_payload(k);
+        }
     }
     post(&mut q, &want, g);
     cover!(old.map_or(false, |o| o.1 < p), "priority raised");
@@ -280,6 +294,9 @@ pub fn push_dir<T: Q, const N: usize>(pre: Pre, tables: Tables, g: Grp, increase
                     assert!(r == Some(oprio), "RET: a strictly better offer returns the old priority");
                 }
                 want.set(k, opay, p);
+                if !g.pay {
+                    want.any_payload(k);
+                }
             } else {
                 if g.model {
                     assert!(r == Some(p), "RET: an offer that is not better is handed back");
@@ -327,6 +344,9 @@ pub fn change_priority_item<T: Q, const N: usize>(pre: Pre, tables: Tables, g: G
     if let Some((opay, _)) = old {
         // the stored item value is the one first inserted, not the lookup key's
         want.set(k, opay, p);
+        if !g.pay {
+            want.any_payload(k);
+        }
         cover!(opay != pay, "lookup key carries a different payload");
     }
     post(&mut q, &want, g);
@@ -358,7 +378,10 @@ pub fn pop_if<T: Q, const N: usize>(pre: Pre, tables: Tables, g: Grp, hi: bool) 
     if let Some((k, _, _)) = peeked {
         if verdict {
             if g.model || g.ord {
-                assert!(r == Some((k, wpay, w)), "RET: pop_if returns the element with what the predicate wrote");
+                assert!(
+                    r.map(|x| (x.0, x.2)) == Some((k, w)) && (!g.pay || r.map(|x| x.1) == Some(wpay)),
+                    "RET: pop_if returns the element with what the predicate wrote"
+                );
             }
             want.del(k);
         } else {
@@ -366,6 +389,9 @@ pub fn pop_if<T: Q, const N: usize>(pre: Pre, tables: Tables, g: Grp, hi: bool) 
                 assert!(r.is_none(), "RET: pop_if returns None when the predicate declines");
             }
             want.set(k, wpay, w);
+            if !g.pay {
+                want.any_payload(k);
+            }
         }
     } else if g.model || g.ord {
         assert!(r.is_none(), "RET: pop_if on an empty queue is None");
@@ -403,6 +429,9 @@ pub fn peek_mut<T: Q, const N: usize>(pre: Pre, tables: Tables, g: Grp, hi: bool
     assert!(got == peeked, "RET: peek_mut addresses the element peek reported");
     if let Some((k, _, prio)) = peeked {
         want.set(k, wpay, prio);
+        if !g.pay {
+            want.any_payload(k);
+        }
     }
     if g.st || g.model {
         // nothing but the payload changed
@@ -442,6 +471,9 @@ pub fn get_mut<T: Q, const N: usize>(pre: Pre, tables: Tables, g: Grp) {
     assert!(got == old, "RET: get_mut returns the stored pair or None");
     if let Some((_, prio)) = old {
         want.set(k, wpay, prio);
+        if !g.pay {
+            want.any_payload(k);
+        }
     }
     let mut s = 0;
     while s < N {
@@ -489,6 +521,9 @@ pub fn retain<T: Q, const N: usize, const PAT: u32>(pre: Pre, tables: Tables, g:
             let keep = PAT & (1u32 << c) != 0;
             if keep {
                 want.set(i.key & 15, rpay[c], rew[c]);
+                if !g.pay {
+                    want.any_payload(i.key & 15);
+                }
             }
             idx += 1;
             keep
